@@ -365,10 +365,21 @@ func (s *Store[K, V]) GetWithSecodary(key K) (V, bool, error) {
 	return value, true, nil
 }
 
-func (s *Store[K, V]) policyNewEntry(hash uint64, shard *Shard[K, V], cost int64, entry *Entry[K, V], fromNVM bool) {
-	s.writeChan <- WriteBufItem[K, V]{
-		code: NEW, entry: entry, hash: hash, fromNVM: fromNVM, costChange: cost,
+// sendWrite queues item for the maintenance goroutine. Once the store is closed
+// nobody receives from the write channel anymore, so give up instead of blocking forever.
+func (s *Store[K, V]) sendWrite(item WriteBufItem[K, V]) bool {
+	select {
+	case s.writeChan <- item:
+		return true
+	case <-s.ctx.Done():
+		return false
 	}
+}
+
+func (s *Store[K, V]) policyNewEntry(hash uint64, shard *Shard[K, V], cost int64, entry *Entry[K, V], fromNVM bool) {
+	s.sendWrite(WriteBufItem[K, V]{
+		code: NEW, entry: entry, hash: hash, fromNVM: fromNVM, costChange: cost,
+	})
 }
 
 func (s *Store[K, V]) policyUpdateEntry(entry *Entry[K, V], hash uint64, cost, old int64, reschedule bool, fromNVM bool) {
@@ -376,10 +387,10 @@ func (s *Store[K, V]) policyUpdateEntry(entry *Entry[K, V], hash uint64, cost, o
 	// send cost change in event and apply them to entry policy weight
 	// so different order still works.
 	costChange := cost - old
-	s.writeChan <- WriteBufItem[K, V]{
+	s.sendWrite(WriteBufItem[K, V]{
 		entry: entry, code: UPDATE, costChange: costChange, rechedule: reschedule,
 		hash: hash, nvmDirty: !fromNVM,
-	}
+	})
 }
 
 type setShardResult[K comparable, V any] struct {
@@ -514,7 +525,7 @@ func (s *Store[K, V]) Delete(key K) {
 	}
 	shard.mu.Unlock()
 	if ok {
-		s.writeChan <- WriteBufItem[K, V]{entry: entry, code: REMOVE, hash: h}
+		s.sendWrite(WriteBufItem[K, V]{entry: entry, code: REMOVE, hash: h})
 	}
 }
 
@@ -537,7 +548,7 @@ func (s *Store[K, V]) DeleteWithSecondary(key K) error {
 	}
 	shard.mu.Unlock()
 	if ok {
-		s.writeChan <- WriteBufItem[K, V]{entry: entry, code: REMOVE}
+		s.sendWrite(WriteBufItem[K, V]{entry: entry, code: REMOVE})
 	}
 	return nil
 }
@@ -983,10 +994,18 @@ func (s *Store[K, V]) processSecondary() {
 
 // Wait blocks until all writes queued before this call are applied to the policy.
 // It's safe to call Wait from multiple goroutines concurrently.
+// Wait returns immediately if the store is closed.
 func (s *Store[K, V]) Wait() {
 	done := make(chan struct{})
-	s.writeChan <- WriteBufItem[K, V]{code: WAIT, done: done}
-	<-done
+	if !s.sendWrite(WriteBufItem[K, V]{code: WAIT, done: done}) {
+		return
+	}
+	// the marker might be queued but never processed
+	// because the maintenance goroutine exits on close.
+	select {
+	case <-done:
+	case <-s.ctx.Done():
+	}
 }
 
 func (s *Store[K, V]) Recover(version uint64, reader io.Reader) error {
